@@ -42,6 +42,10 @@ pub async fn dispatch(ctx: &Ctx, rep: &mut ShardReport) -> bool {
             crate::groups::run(ctx, rep).await;
             true
         }
+        "C04" => {
+            crate::crash::run(ctx, rep).await;
+            true
+        }
         "C11" => {
             crate::journal::run(ctx, rep).await;
             true
